@@ -386,18 +386,21 @@ class VerusUnit:
             pl = prim[0]["line_start"]
             fn_name = owner(pl)
             label, tags, wheres = "", (), []
-            callee_label = ""
+            cands = []
             for s in spans:
                 ln = s["line_start"]
                 if 1 <= ln <= len(w.out):
                     L = w.out[ln - 1]
                     wheres.append("%s:%d%s" % (L.ofile, L.oline, " (%s)" % s.get("label") if s.get("label") else ""))
-                    # a clause label on any line the span covers
                     for q in range(s["line_start"], min(s["line_end"], len(w.out)) + 1):
                         LL = w.out[q - 1]
-                        if LL.label and not s.get("is_primary") or (LL.label and kind in ("assert",)):
-                            if not label:
-                                label, tags = LL.label, LL.tags
+                        if LL.label:
+                            # spans that point at a clause ("failed this postcondition", "failed precondition", invariant) win
+                            pri = 0 if re.search(r"failed|invariant", s.get("label") or "") else 1
+                            cands.append((pri, q, LL.label, LL.tags))
+            if cands:
+                cands.sort()
+                label, tags = cands[0][2], cands[0][3]
             Lp = w.out[pl - 1] if 1 <= pl <= len(w.out) else None
             # tags: clause tags if labelled, else tags of the owning extracted fn, else tags declared by a `// vx:tags` line in a verbatim fn
             if not tags:
